@@ -119,7 +119,7 @@ class AsmWorld(World):
         cands = [n for n in meshlib.names(dim=dim) if lib[n].Nn <= maxNn]
         n_mesh = int(rng.integers(1, 3))
         meshes = [cands[int(rng.integers(len(cands)))] for _ in range(n_mesh)]
-        cfg = {"actor": actor, "dim": dim, "meshes": meshes, "nops": int(rng.integers(8, 26)), "faults": False}
+        cfg = {"actor": actor, "dim": dim, "meshes": meshes, "nops": int(rng.integers(8, 26)), "faults": bool(faults)}
         if actor == "mixed":
             npt = int(rng.integers(1, 3))
             cfg["spec"] = {
@@ -142,6 +142,9 @@ class AsmWorld(World):
 
         self.clock = seams.ClockSeam(ctx, EasyFEA)
         self.solver = seams.SolverSeam(ctx, Solvers)
+        from EasyFEA.Simulations import _simu as _simu_mod
+
+        self.alloc = seams.AllocSeam(ctx, _simu_mod)
         lib = meshlib.library()
         self.raws = [lib[n] for n in cfg["meshes"]]
         self.actor = cfg["actor"]
@@ -178,6 +181,7 @@ class AsmWorld(World):
         sim.Construct_local_matrix_system = wrapped
 
     def close(self):
+        self.alloc.close()
         self.solver.close()
         self.clock.close()
 
@@ -200,6 +204,9 @@ class AsmWorld(World):
         if name in ("assemble", "kcmf"):
             op["pt"] = int(rng.integers(len(pts)))
             op["_mut"] = False
+            if self.cfg.get("faults") and frng.random() < 0.35:
+                # the k-th sparse construction of this assembly fails: K (and C, M) may already be built, maps cached
+                op["fault"] = {"seam": "alloc", "kind": "memerr", "k": int(frng.integers(1, 7))}
         elif name == "values":
             op["vseed"] = int(rng.integers(1 << 30))
         elif name == "slots":
@@ -268,15 +275,36 @@ class AsmWorld(World):
                 # per-problem flags and whether it notices a size change is a staleness question (C14), not C03's
                 return "skip"
             before = self._cache_keys()
-            try:
+            fault = op.get("fault") if self.cfg.get("faults") else None
+            use_assembly = name == "assemble" or len(pts) > 1 and self.actor == "mixed"
+            if not use_assembly and not sim.needUpdate:
+                ctx.probe("kcmf_served_from_cache")
+                return "cached"  # nothing assembled: staleness of this path is C14's business
+
+            def call():
                 with ctx.sut():
-                    if name == "assemble" or len(pts) > 1 and self.actor == "mixed":
-                        mats = sim.Assembly(pt)
-                    else:
-                        if not sim.needUpdate:
-                            ctx.probe("kcmf_served_from_cache")
-                            return "cached"  # nothing assembled: staleness of this path is C14's business
-                        mats = sim.Get_K_C_M_F(pt)
+                    return sim.Assembly(pt) if use_assembly else sim.Get_K_C_M_F(pt)
+
+            if fault:
+                # an assembly interrupted by a failing allocation, then repeated: the repeat is what gets checked
+                self.alloc.arm(fault)
+                failed = None
+                try:
+                    call()
+                except SutError as e:
+                    failed = e
+                finally:
+                    pending = self.alloc.disarm()
+                if not pending:
+                    if failed is None:
+                        raise Violation("fault-swallowed", "an injected allocation failure did not surface from the assembly")
+                    ctx.probe("assembly_interrupted_then_repeated")
+                    if not use_assembly and not sim.needUpdate:
+                        raise Violation("interrupted-assembly-marked-done", "Get_K_C_M_F raised part-way but the simulation no longer asks for an update: the next read would be served from half-built matrices")
+                elif failed is not None:
+                    raise Violation("assembly-raises", f"{name}({simlib.pt_key(pt)}) raised {failed}", failed.site)
+            try:
+                mats = call()
             except SutError as e:
                 raise Violation("assembly-raises", f"{name}({simlib.pt_key(pt)}) raised {e}", e.site)
             after = self._cache_keys()
